@@ -42,8 +42,14 @@ from utype import Options, Field, Rule
 class PosInt(int, Rule):
     gt = 0
 T = {"int": int, "posint": PosInt, "str": str}
-def make(opts, ta, tr, tk):
-    @utype.parse(options=Options(**opts))
+def make(opts, ta, tr, tk, form=None):
+    if form == "inherited":
+        # the options live on an Options subclass and are INHERITED by the class that is instantiated
+        Base = type(Options)("BaseOpts", (Options,), dict(opts))
+        o = type(Options)("ApiOpts", (Base,), {"max_depth": 64})     # (given as the class, the documented form)
+    else:
+        o = Options(**opts)
+    @utype.parse(options=o)
     def fn(a: T[ta], *rest: T[tr], **kw: T[tk]):
         return a, rest, kw
     return fn
@@ -63,7 +69,7 @@ def make_varargs_case(rng):
         rest = [pick(tr, rng.random() < 0.3) for _ in range(rng.randint(0, 4))]
         kw = {k: pick(tk, rng.random() < 0.3) for k in rng.sample(["k1", "k2", "k3"], rng.randint(0, 3))}
         calls.append((a, rest, kw))
-    return {"varargs": True, "types": (ta, tr, tk), "opts": opts, "calls": calls}
+    return {"varargs": True, "types": (ta, tr, tk), "opts": opts, "calls": calls, "form": rng.choice([None, None, "inherited"])}
 
 
 def run_varargs(case, ctx):
@@ -75,8 +81,10 @@ def run_varargs(case, ctx):
     ta, tr, tk = case["types"]
     opts = case["opts"]
     try:
-        f0 = ns["make"](dict(opts), ta, tr, tk)
-        f1 = ns["make"](dict(opts, collect_errors=True), ta, tr, tk)
+        f0 = ns["make"](dict(opts), ta, tr, tk, case.get("form"))
+        f1 = ns["make"](dict(opts, collect_errors=True), ta, tr, tk, case.get("form"))
+        if case.get("form"):
+            ctx.count("functions_whose_options_are_inherited_class_attributes")
     except Exception as e:
         ctx.count("declaration_rejected:" + type(e).__name__)
         return
@@ -99,7 +107,7 @@ def run_varargs(case, ctx):
                 failing += 1
         wit = {"function": f"fn(a: {ta}, *rest: {tr}, **kw: {tk}) options={opts}", "call": short((a, rest, kw), 200), "fail_fast": repr(x), "collect_errors": repr(y),
                "arguments_failing_alone": failing}
-        sig = ("varargs", ta, tr, tk, tuple(sorted(opts.items())), failing, len(rest), len(kw))
+        sig = ("varargs", ta, tr, tk, tuple(sorted(opts.items())), failing, len(rest), len(kw), case.get("form"))
         if x.ok != y.ok:
             ctx.violation("C10/verdict-changes/" + ("collect-accepts-what-fail-fast-rejects" if y.ok else "collect-rejects-what-fail-fast-accepts"),
                           f"{wit['function']} call {wit['call']}: fail-fast -> {x!r}; collect_errors -> {y!r}", wit, sig=sig)
